@@ -404,6 +404,11 @@ def run(ctx):
                 text = opgen.document_text(doc)
                 op = rng.choice(doc.operations)
                 validate_and_maybe_execute(ctx, rng, case, text, "valid", doc, op, amb)
+                # more accepted documents: each is executed and its data compared with the reference shape
+                for _ in range(4):
+                    g2 = opgen.OpGen(rng, case.ir, max_depth=rng.choice([2, 3, 4]))
+                    d2 = g2.document()
+                    validate_and_maybe_execute(ctx, rng, case, opgen.document_text(d2), "valid", d2, rng.choice(d2.operations), amb)
                 # labelled rule violations: validation must not raise (and accepted ones must execute)
                 for op_fn in rng.sample(rulebreak.OPERATORS, 8):
                     if op_fn.__name__ == "type_definition_in_document":
